@@ -88,8 +88,14 @@ def _merge(results):
         for v in r['violations']:
             v.setdefault('shard', r.get('_shard_index'))
         m['violations'].extend(r['violations'])
-        if len(m['samples']) < 6:
-            m['samples'].extend(r['samples'][:2])
+        for smp in r['samples'][:2]:
+            # a few samples, but at least one of every kind of case (the 'part' of a harness) the run explored
+            kind = smp.get('part') if isinstance(smp, dict) else None
+            if kind not in m['extra'].setdefault('_sample_kinds', set()) and len(m['samples']) < 12:
+                m['extra']['_sample_kinds'].add(kind)
+                m['samples'].append(smp)
+            elif len(m['samples']) < 4:
+                m['samples'].append(smp)
         m['caps'].extend(r['caps'])
         for k, v in r.get('sig_counts', {}).items():
             m['sig_counts'][k] = m['sig_counts'].get(k, 0) + v
@@ -284,7 +290,7 @@ def run_check(prop, tier, seed, replay_path=None, jobs=None):
         'states': len(merged['states']),
         'transitions': merged['transitions'],
         'traces_validated_against_impl': merged['evaluations'],
-        'samples': merged['samples'][:6] or [{'note': 'no sample recorded'}],
+        'samples': merged['samples'][:12] or [{'note': 'no sample recorded'}],
         'evaluations': merged['evaluations'],
         'distinct_nontrivial': merged['nontrivial'],
         'rule': getattr(mod, 'RULE', ''),
@@ -300,7 +306,8 @@ def run_check(prop, tier, seed, replay_path=None, jobs=None):
         'target': loader.target_repo(),
     }
     for k, v in merged['extra'].items():
-        cov.setdefault(k, len(v) if isinstance(v, set) else v)
+        if not k.startswith('_'):
+            cov.setdefault(k, len(v) if isinstance(v, set) else v)
     cov.update(extra_cov)
     ev = {
         'property_id': prop, 'tier': tier, 'seed': seed, 'level': 'model_checking',
